@@ -1,6 +1,7 @@
 """Shared vocabulary for the contract files: object views, small helper contracts used by many properties."""
 import z3
 from pyvc.values import *
+from pyvc.values import UNFOLD, LEMMA_HOOKS, ForallList
 from pyvc.contracts import Contract, Out
 from pyvc.symexec import attr0, field0, State, Raise, PyRef, PyFunc, PyTuple, fun_id, LoopContract
 from pyvc.classtable import table
@@ -36,6 +37,14 @@ CONCRETE_NODES = sorted(c for c in T.subclasses('Node') if T.resolve_attr(c, 'lo
 def ast_node(v):
     """an instance of a concrete AST node class (every concrete class sets .location in __init__; read from the class table)"""
     return z3.And(V.is_Obj(v), z3.Or(*[V.ocls(v) == T.cid[c] for c in CONCRETE_NODES]), V.oref(v) >= 0)
+
+
+AllAstNodes = ForallList('ast_node', ast_node)
+
+
+def node_list(v):
+    """a list of concrete AST nodes"""
+    return z3.And(V.is_List(v), AllAstNodes(V.items(v)))
 
 
 def node_or_none(v):
@@ -105,11 +114,8 @@ class GraphqlErrorFromNodes(Contract):
 
     def pre(self, A, st):
         n = A['nodes']
-        return [('nodes', z3.Or(ast_node(n), V.is_List(n))),
+        return [('nodes', z3.Or(ast_node(n), node_list(n))),
                 ('path', z3.Implies(inst(A['path'], 'Path'), PathWf(A['path'])))]
-
-    def elem_preds(self, A):
-        return [(V.items(A['nodes']), ast_node, V.is_List(A['nodes']))]
 
     def post(self, A, st0, out):
         if out.kind == 'raise':
@@ -129,6 +135,10 @@ KeysDown = z3.RecFunction('PathKeysDown', V, VL)       # keys from this entry up
 _p = z3.Const('p_', V)
 z3.RecAddDefinition(PathWf, [_p], z3.Or(_p == V.None_, z3.And(exact(_p, 'Path'), V.oref(_p) >= 0, PathWf(attr0(_p, 'prev')))))
 z3.RecAddDefinition(KeysDown, [_p], z3.If(_p == V.None_, VL.nil, VL.cons(attr0(_p, 'key'), KeysDown(attr0(_p, 'prev')))))
+
+
+UNFOLD['PathWf'] = lambda p: z3.Or(p == V.None_, z3.And(exact(p, 'Path'), V.oref(p) >= 0, PathWf(attr0(p, 'prev'))))
+UNFOLD['PathKeysDown'] = lambda p: z3.If(p == V.None_, VL.nil, VL.cons(attr0(p, 'key'), KeysDown(attr0(p, 'prev'))))
 
 
 def path_list(p):
